@@ -171,7 +171,12 @@ type errorExtra struct {
 // When debug is false, stack traces and file paths are omitted to avoid leaking
 // implementation details to clients.
 func buildErrorExtra(err error, debug bool) string {
-	errType := fmt.Sprintf("%T", err)
+	// Anything that is not one of the typed errors below is a plain
+	// server-side failure: it surfaces as RuntimeError (docs/guide/errors.md).
+	// A Go type name such as "*errors.errorString" or "*fmt.wrapError" means
+	// nothing to the cross-language peers that map this string to an
+	// exception class.
+	errType := "RuntimeError"
 
 	// Prefer the wire-stable class name for typed errors.
 	switch e := err.(type) {
